@@ -167,6 +167,24 @@ func (c *Ctx) Var(name string, s Sort) *Term {
 }
 
 func (c *Ctx) App(name string, res Sort, args ...*Term) *Term {
+	// one SMT function per (name, signature): variadic models (marshal of messages with repeated fields,
+	// Sprintf) are applied with different arities
+	var sb strings.Builder
+	sb.WriteString(name)
+	sb.WriteByte('_')
+	for _, a := range args {
+		switch a.Sort.K {
+		case SBool:
+			sb.WriteByte('b')
+		case SInt:
+			sb.WriteByte('i')
+		case SFP:
+			sb.WriteString("f" + strconv.Itoa(a.Sort.W))
+		default:
+			sb.WriteString("v" + strconv.Itoa(a.Sort.W))
+		}
+	}
+	name = sb.String()
 	if _, ok := c.UFs[name]; !ok {
 		d := &UFDecl{Name: name, Res: res}
 		for _, a := range args {
